@@ -474,7 +474,7 @@ def run(chk):
         if len(lv) != 1:
             continue
         for i_ in stmt_list(lp["body"]):
-            if i_["k"] != "If" or not re.fullmatch(r"\(\w+\[%s\] > 0\)" % lv[0], show(decast(i_["cond"]))):
+            if i_["k"] != "If" or not re.fullmatch(r"\(\w+\[%s\] (>|>=|!=|==) \d+\)" % lv[0], show(decast(i_["cond"]))):
                 continue
             incs = set()
             for t in stmt_list(i_["then"]):
@@ -491,6 +491,37 @@ def run(chk):
     if not (a2g and g2a and nact) or a2g == g2a:
         raise core.AnalysisBroken("EclIO::EGrid constructor: the ACTNUM loop that builds the active->global and global->active maps was not recognised (a2g=%s g2a=%s count=%s)" % (a2g, g2a, nact))
     chk.instance(r_ik, "maps", sample=dict(active_to_global=a2g, global_to_active=g2a, active_count=nact))
+    # the activity predicate itself: ACTNUM may hold 1, 2 or 3 for an active cell (dual porosity / thermal)
+    r_ac = chk.rule("C13.active", "every comparison of an ACTNUM entry (an element of an int vector whose name contains 'actnum') with an integer literal is the activity test: active is `> 0` (equivalently `!= 0`, `>= 1`), inactive `== 0` (`<= 0`, `< 1`).  A test against any other value (`== 1`, `> 1`) makes one site disagree with all the others for the legal values 2 and 3: the EGRID view, the grid and the property arrays then number the active cells differently", floor=6)
+    ACTIVE_FORMS = {(">", 0), ("!=", 0), (">=", 1), ("==", 0), ("<=", 0), ("<", 1)}
+    ax_ = chk.facts(UNITS + ["opm/input/eclipse/EclipseState/Grid/FieldProps.cpp"])
+    for f in ax_.fns:
+        if not f.get("body") or not f["file"].startswith(core.REPO + "/opm/"):
+            continue
+        for n in walk(f["body"]):
+            if n.get("k") != "Bin" or n.get("op") not in (">", "<", ">=", "<=", "==", "!="):
+                continue
+            a, b = strip(n["c"][0]), strip(n["c"][1])
+            op = n["op"]
+            if b.get("k") != "Int" and a.get("k") == "Int":
+                a, b = b, a
+                op = {"<": ">", ">": "<", "<=": ">=", ">=": "<=", "==": "==", "!=": "!="}[op]
+            if b.get("k") != "Int":
+                continue
+            el = decast(a)
+            base = None
+            if el.get("k") == "OpCall" and el.get("op") == "[]" and el.get("a"):
+                base = strip(el["a"][0])
+            elif el.get("k") == "Idx":
+                base = strip(el["c"][0])
+            if base is None or not re.search(r"actnum", (base.get("n") or ""), re.I) or "int" not in (base.get("t") or ""):
+                continue
+            key = "%s@%d" % (f["q"], n["l"])
+            form = (op, int(b["v"]))
+            chk.instance(r_ac, key, sample=dict(function=f["q"], test=show(n)))
+            if form not in ACTIVE_FORMS:
+                chk.violation(r_ac, key, "%s tests an ACTNUM entry with `%s`; a cell is active exactly when its ACTNUM is positive (1, 2 and 3 are all legal), as every other site assumes" % (f["q"], show(n)), f["file"], n["l"])
+
     # (c) kind of every int parameter of the EGrid methods
     kinds = {}
     for f in fx.fns:
